@@ -76,7 +76,16 @@ def cases(draw):
             "name": "x9", "shape": [2], "dtype": "float64", "values": [1, 2],
             "scale": 0}})
         body0 = _shift_refs(body0, 1)
-    fns.append({"spec": body0, "ret": _ret_kind(draw, body0),
+    many = draw(st.integers(0, 9)) == 0
+    if many:
+        # a function returning a long tuple (result names _0 .. _11 do not
+        # sort like their positions)
+        k = 0
+        while len(body0["outputs"]) < 12:
+            body0["outputs"].append([f"more{k}", k % len(body0["nodes"])])
+            k += 1
+    fns.append({"spec": body0,
+                "ret": "tuple" if many else _ret_kind(draw, body0),
                 "ident": draw(st.sampled_from(["f0", "f", None]))})
     nested = draw(st.integers(0, 3)) == 0
     if nested:
